@@ -1,0 +1,11 @@
+//go:build verif
+
+package sessions
+
+// verifTrace forwards manager-loop events of the keyed mutex to the
+// verification harness (build tag "verif" only).
+func verifTrace(ev string, key interface{}, locks int) {
+	if VerifMutexTrace != nil {
+		VerifMutexTrace(ev, key, locks)
+	}
+}
